@@ -267,6 +267,12 @@ func genCase(r *lib.Rng, tier string) *Case {
 		maxN = 9
 	}
 	switch x := r.Intn(10); {
+	case x < 4 && r.Chance(1, 10):
+		// wide fan-in: 6-8 streaming nodes side by side between START and END, so that END's merged reader has
+		// more sources than schema's static select handles (maxSelectNum = 5: the reflect.Select path of
+		// multiStreamReader) and START's output is copied 6-8 times
+		c.Mode = []string{"dag", "pregel"}[r.Intn(2)]
+		g.genWide(c, r.Range(6, 8))
 	case x < 4:
 		c.Mode = "dag"
 		g.genDag(c, r.Range(1, maxN))
@@ -389,6 +395,21 @@ func genCase(r *lib.Rng, tier string) *Case {
 		c.Read = r.Range(1, 8)
 	}
 	return c
+}
+
+// genWide: START -> n0 .. n(k-1) -> END, every node a real stream (no array-backed output, which a merge
+// would fold into one source).
+func (g *genCtx) genWide(c *Case, k int) {
+	r := g.r
+	c.Nodes = make([]NodeSpec, k)
+	c.StartSucc = make([]int, k)
+	for j := 0; j < k; j++ {
+		g.nodeKind(&c.Nodes[j])
+		c.Nodes[j].Kind = []string{"prod", "prod", "xform", "conv"}[r.Intn(4)]
+		c.Nodes[j].Tools = 0
+		c.Nodes[j].Succ = []int{END}
+		c.StartSucc[j] = j
+	}
 }
 
 // genDag: nodes in topological order; every node has a predecessor and a successor.
